@@ -8,6 +8,15 @@ def do_nothing(context):
     pass
 
 
+def _step_as_text(keyword, step):
+    # A step is its name and, possibly, a table (e.g. the parameters of "I send event")
+    text = '{} {}'.format(keyword, step.name)
+    if step.table:
+        rows = [step.table.headings] + [row.cells for row in step.table.rows]
+        text += ''.join('\n  | {} |'.format(' | '.join(cells)) for cells in rows)
+    return text
+
+
 @given('I reproduce "{scenario}"')
 def reproduce_scenario(context, scenario, *, keyword='Given'):
     current_feature = context.feature
@@ -15,7 +24,7 @@ def reproduce_scenario(context, scenario, *, keyword='Given'):
         if included_scenario.name == scenario:
             for step in included_scenario.steps:
                 if step.step_type in ['given', 'when']:
-                    context.execute_steps('{} {}'.format(keyword, step.name))
+                    context.execute_steps(_step_as_text(keyword, step))
             return
     assert False, 'Unknown scenario {}.'.format(scenario)
 
